@@ -1,7 +1,8 @@
 #!/bin/sh
-# builds the framework from files on disk only (offline): generated Lean, Lean library + driver, Rust harness
+# builds the framework from files on disk only (offline): generated Lean, Lean library (model, lemmas,
+# property theorems) + model driver, Rust harness (links /repo with the verification hooks on)
 set -e
 cd "$(dirname "$0")"
 python3 tools/rs2lean.py /repo lean/Abyss/Gen
-(cd lean && lake build Abyss abyss-driver)
+(cd lean && lake build Abyss abyss-driver 2>&1 | tail -3)
 (cd harness && CARGO_NET_OFFLINE=true cargo build --offline 2>&1 | tail -2)
